@@ -279,8 +279,10 @@ def dotted(node) -> Optional[str]:
     return ".".join(c) if c else None
 
 
-def call_name(call: ast.Call) -> Optional[str]:
+def call_name(call) -> Optional[str]:
     """Dotted name of the callee if it is a name/attribute chain."""
+    if not isinstance(call, ast.Call):
+        return None
     return dotted(call.func)
 
 
